@@ -250,7 +250,15 @@ class DispatchingShell(cmd.Cmd):
     def onecmd(self, line):
         cmd, arg, line = self.parseline(line)
         if not cmd:
-            return
+            if not line:
+                return
+            # The line does not start with a command word. A line
+            # starting with a dot is a mistyped command. Anything else,
+            # a statement starting with a comment for example, is for
+            # the query parser.
+            if line.startswith('.'):
+                return self.error(f'unknown command "{line[1:].strip()}"')
+            return self.execute(line)
         if not line.startswith('.'):
             cmd = cmd.lower()
             if cmd not in {'clear', 'errors', 'exit', 'help', 'history', 'parse', 'quit', 'run', 'set'}:
